@@ -172,7 +172,7 @@ func c18Decoder(c *Ctx) *ssa.Function {
 	pk := c.P.Pkg("pkg/vrf")
 	in.Call(pk.Func("init"), nil)
 	okTab := false
-	if g, ok := pk.Members["nonCanonicalSignBytes"].(*ssa.Global); ok && in.Globals[g] != nil {
+	if g := c.gvar("pkg/vrf", "nonCanonicalSignBytes"); g != nil && in.Globals[g] != nil {
 		if arr, ok := in.Globals[g].V.(*bitdom.Array); ok && len(arr.Elems) == 2 {
 			get := func(v bitdom.Val) []byte {
 				sl, ok := v.(*bitdom.Slice)
